@@ -25,7 +25,7 @@ TIERS = {
     "thorough": dict(gen="MC_RenderGen_c08_thorough.cfg", gen_timeout=1800, mc_workers=8, renders=5, uninst=40,
                      batch_full_n=5, batch_sample=0, grace="4ms"),
 }
-RENDER_ARGS = lambda t: ["-n", str(t["renders"]), "-uninst", str(t["uninst"])]
+RENDER_ARGS = lambda t: ["-n", str(t["renders"]), "-uninst", str(t["uninst"]), "-nohooks"]
 
 
 def batch_cases(orders, full_n, sample, rnd):
